@@ -405,3 +405,28 @@ PROPS["C02"] = dict(
         technique="property-based testing (rapid) with a provenance-stamp oracle at a multi-host loopback TLS adversary",
     ),
 )
+
+PROPS["C09"] = dict(
+    pkg="c09",
+    level="exploration",
+    rule=("an actor's outbox or a post's reply collection (embedded or remote, unpaged or paged 1..3 per page) of 0..8 entries, each "
+          "built from a labelled template — legitimate (own activity by URL / stub / embedded with or without id, actor given as an "
+          "embedded copy, Announce; reply to this post, reply through an alias URL that redirects to it, reply with a same-host author) "
+          "or impostor (activity by another actor on the same or another host, actor missing or id-less, a Note in an outbox, a "
+          "Tombstone, an id that merely has the owner's id as a prefix; reply to another post, to the same path on another host, without "
+          "parent, with a foreign-host author; an actor among replies; 404; wrong JSON type). Oracle: ground truth by construction — "
+          "the i-th harvested item shows entry i's unique token iff the entry is labelled legitimate and is an error item otherwise; "
+          "the number of items equals the number of entries (nothing dropped, order kept). Non-trivial: the listing has at least one "
+          "legitimate and one impostor entry. Distinct = distinct (listing, entries, paging)."),
+    units=[
+        rapid("Prop", "TestProp", 2500, 120000, config_toml=_NET),
+    ],
+    manifest=dict(
+        text=("Property-based testing with ground-truth labels: generated listings mixing legitimate entries and every kind of "
+              "impostor are served by the loopback simulator and the harvested items are compared position by position with the "
+              "labels. Sampled."),
+        design_ref="DESIGN.md §3 C09",
+        note="Trusted: the labels of the entry templates in harness/c09.",
+        technique="property-based testing (rapid) with ground-truth labels at a multi-host loopback TLS simulator",
+    ),
+)
